@@ -147,6 +147,9 @@ func fleetProfile(name, prop string, fr FleetRun) *Profile {
 			}
 		}
 		f.Finish()
+		if propertyOverride == "C17" {
+			f.wedgeCheck()
+		}
 		env.Res.Violations = f.Violations
 		env.Res.SimMs = int64(f.Sim.Now() / time.Millisecond)
 		env.Res.Counts = map[string]int{
